@@ -94,7 +94,8 @@ func H14_Send() {
 // time); any subset of them has left the store since (delivered, expired); the node may have restarted (the id keeper
 // forgets, the store does not). One to three further bundles of the same source and creation time are then submitted:
 // each gets an ID that differs from every other new one and from every bundle still in the store, every stored key
-// still holds the bundle that was filed under it, and nothing already stored is overwritten.
+// still holds the bundle that was filed under it, and nothing already stored is overwritten. Optionally a bundle of
+// another source with the other kind of creation time (timed / zero) is sent in between.
 func H14_Restart() {
 	var log []sendRec
 	dir := verif.TempDir("store")
@@ -138,6 +139,21 @@ func H14_Restart() {
 	if verif.Size("peers", 0, 1) == 1 {
 		p := newMockCLA("peer1", &log)
 		c.RegisterConvergable(p)
+		settle()
+	}
+	if verif.Bool("othertraffic") {
+		// in between the node sends a bundle of another source with the other kind of creation time (a clock-less one
+		// among timed ones, a timed one - like every status report - among clock-less ones)
+		var ob bpv7.Bundle
+		if zero {
+			ob = dataBundle("dtn://this/other", "dtn://far/inbox", 0)
+		} else {
+			var oerr error
+			ob, oerr = bpv7.Builder().Source("dtn://this/other").Destination("dtn://far/inbox").CreationTimestampEpoch().Lifetime("1h").
+				BundleAgeBlock(uint64(0)).PayloadBlock([]byte{'o'}).Build()
+			verif.Assert(oerr == nil, "bundle builds")
+		}
+		c.SendBundle(&ob)
 		settle()
 	}
 	first := len(all)
